@@ -36,7 +36,9 @@ COMPONENTS = {
              "subprocess.run (version probe) -> scripted banner", "external MSA programs -> fake tools in /verif/sim/simworld.py",
              "tempfile name sequence -> seeded", "StubLocalApp / StubPollApp / StubMSAApp: logic-free subclasses that drive the base classes alone (StubMSAApp: command line + the four supports_*() hooks, answers drawn per run)",
              "signals -> InjectedInterrupt / InjectedExit / InjectedAbort raised at a launch or inside a blocking wait at a chosen simulated instant",
-             "web server of the WebApp flavour -> in-process rate limiter on the virtual clock (one contact per `gap` seconds)"],
+             "web server of the WebApp flavour -> in-process rate limiter on the virtual clock (one contact per `gap` seconds)",
+             "NamedTemporaryFile as imported by msaapp / clustalo / muscle -> the real file behind SimTempFile, a proxy that fails write/flush/close with ENOSPC while the simulated disk is full",
+             "pipe decoding: SimPopen decodes scripted STDERR bytes with the encoding / error policy the wrapper passed (undecodable bytes, bytes already written when a timeout expires)"],
 }
 RULE = ("Each run: the PRNG picks 1-2 wrappers (kind, sequence set, matrix, fault script, version banner), then up to 30 "
         "operations (create/start/join/cancel/state/setters/getters/align, clock advances, switching wrappers). "
